@@ -198,6 +198,37 @@ func regionFuncs(fn *ssa.Function) []*ssa.Function {
 				add(h, depth+1)
 			}
 		}
+		// new functions handed over as values: a closure replaced by a method value of a
+		// small struct (`collector.add`), or a package-level function used as callback
+		Instrs(f, func(in ssa.Instruction) {
+			for _, op := range in.Operands(nil) {
+				if op == nil || *op == nil {
+					continue
+				}
+				var h *ssa.Function
+				switch x := (*op).(type) {
+				case *ssa.MakeClosure:
+					h, _ = x.Fn.(*ssa.Function)
+				case *ssa.Function:
+					h = x
+				}
+				if h == nil || h.Blocks == nil {
+					continue
+				}
+				if h.Synthetic != "" {
+					// bound-method wrapper: the method it forwards to
+					for _, ci := range CallsIn(h) {
+						if t := CalleeFunc(ci.Common()); t != nil && t.Blocks != nil && IsRepoFunc(t) && IsNewFunc(t) {
+							add(t, depth+1)
+						}
+					}
+					continue
+				}
+				if h.Parent() == nil && IsRepoFunc(h) && IsNewFunc(h) {
+					add(h, depth+1)
+				}
+			}
+		})
 	}
 	add(fn, 0)
 	return out
